@@ -838,3 +838,35 @@ def load_equivalence_rule(ctx, rid="R5.16"):
             r.ok(f"{algo}: b = F + f_ext + history terms")
         else:
             r.fail(f"{fR.qualname}[{algo}]", "load-weight", fR.file, fR.lineno, RHS, f"AlgoType.{algo}: the assembled load vector F enters the right-hand side with weight {cF!r} and the Neumann vector with weight {cN!r}: the same load written as a linear form (weak-form simulation) and applied with add_volumeLoad (dedicated simulation) is not advanced the same way")
+
+
+def midpoint_lemma_rule(ctx, rid="R5.17"):
+    """The relations of the midpoint scheme the discrete energy balance rests on, decided on the code's own tables (EVAL and
+    CORR interpreted for AlgoType.midpoint, any previous state, any dt):
+        u_t = (u' + u_n) / 2,   v_t = (u' - u_n) / dt,   a_t = (v' - v_n) / dt,   v' + v_n = 2 (u' - u_n) / dt.
+    With them  (u' - u_n) . [M a_t + f_int(u_t)] = 1/2 v'.M v' - 1/2 v_n.M v_n + (u' - u_n) . f_int : the kinetic energy
+    gained is exactly the work of the internal force over the step (which the energy-conserving stress makes equal to -dW)."""
+    repo = ctx.repo
+    r = ctx.rule(rid, "midpoint scheme: u_t = (u' + u_n)/2, v_t = (u' - u_n)/dt, a_t = (v' - v_n)/dt and v' + v_n = 2 (u' - u_n)/dt as identities of the interpreted EVAL / CORR tables", min_instances=4)
+    fE, fU = repo.method(SIMU, EVAL), repo.method(SIMU, CORR)
+    I = Interp(repo, extra_builtins={"Tic": lambda *a, **k: Sink()})
+    I.call_hook = call_hook
+    obj, _ = make_self(repo, "midpoint", I)
+    PT = Opaque("problemType")
+    u1 = Vec.atom("u_np1")
+    un, vn = Vec.atom("u_n"), Vec.atom("v_n")
+    d = obj.attrs["_Simu__hyperbolicParams"][0]
+    try:
+        u_t, v_t, a_t = I.call_function(fE, [PT, u1], self_obj=obj)
+        uc, vc, ac = I.call_function(fU, [PT, u1], self_obj=obj)
+    except XRaise as e:
+        r.instance(fn=fU.qualname)
+        r.fail(fU.qualname, "raises", fU.file, fU.lineno, CORR, f"AlgoType.midpoint: raises {e}")
+        return
+    for label, form, fn in (("v' + v_n == 2 (u' - u_n)/dt", vc + vn - 2 * (uc - un) / d, fU), ("a_t == (v' - v_n)/dt", a_t - (vc - vn) / d, fE), ("u_t == (u' + u_n)/2", u_t - (uc + un) / 2, fE), ("v_t == (u' - u_n)/dt", v_t - (uc - un) / d, fE)):
+        r.instance(fn=fn.qualname)
+        if form.is_zero():
+            r.ok(f"midpoint: {label}")
+        else:
+            bad = ", ".join(f"{a}: {c!r}" for a, c in list(form.t.items())[:4])
+            r.fail(f"{fn.qualname}[midpoint]", label, fn.file, fn.lineno, fn.name, f"midpoint scheme: {label} does not hold for the state the corrector returns (residual {bad}): kinetic plus stored energy is no longer conserved by a converged step")
